@@ -397,6 +397,47 @@ def _layer_application_nodes(ck, fa: FA, name, field, excuse):
     return nodes, sites
 
 
+def _check_cache_let_go_first(ck, R, fa0: FA, name):
+    """The store's forget can fail half-way (it deletes several files; a recursive delete reports an error after it has
+    removed the tree).  Whatever happens to it, the cache must not keep answering for what the store has let go of: when
+    the store's `name` is started, the cache's `name` has already been applied (whenever a cache exists), or it is applied
+    on every way on from a failure of the store's (a finally block / a handler that re-raises after it).  Decided on the
+    CFG with exception edges out of every call."""
+    fx = FA(ck, fa0.fi, exc_mode="all")
+    mdx, _m = _layer_application_nodes(ck, fx, name, "_metadata_source", None)
+    ccx, _c = _layer_application_nodes(ck, fx, name, "_memory_cache", _no_cache)
+    if not mdx or not ccx:
+        return      # reported by the mirror obligations
+    nocache = branch_filter(fx, _no_cache)
+    cfg = fx.cfg
+    bad = None
+    for m in mdx:
+        if m in ccx:
+            # one loop over the layers applies the operation to both: the order is that of the sequence it runs through
+            nd = cfg.node(m).ast
+            lp = nd if isinstance(nd, ast.For) else fx.enclosing(nd, ast.For) if nd is not None else None
+            seq = safe_expand(fx, lp.iter, lp) if lp is not None else None
+            if isinstance(seq, (ast.Tuple, ast.List)) and not any(isinstance(e, ast.Starred) for e in seq.elts):
+                ic = [i for i, e in enumerate(seq.elts) if _layer_value(ck, fx, e, lp, "_memory_cache", _no_cache)]
+                im = [i for i, e in enumerate(seq.elts) if _layer_value(ck, fx, e, lp, "_metadata_source", None)]
+                if ic and im and min(im) < min(ic):
+                    bad = m
+            continue
+        before = cfg.must_pass(ccx, m, edge_ok=nocache)
+        # what follows a failure of the store's operation: only the exception edges out of it, then the normal flow
+        after_failure = both(nocache, lambda s, d, l, m=m: (l == "exc") == (s == m))
+        r = cfg.reach([m], removed=ccx, edge_ok=after_failure, include_start=False)
+        if not before and (cfg.raise_exit in r or cfg.exit in r):
+            bad = m
+    ok = bad is None
+    ck.ob(R, fa0.key(None, "cache-before-store"), ok,
+          "the cache lets go of the scope before the store starts to (or on every way on from a failure of the store)" if ok else
+          "%s starts self._metadata_source.%s before self._memory_cache.%s was applied and nothing applies it when the store's %s fails: a store "
+          "that fails after it has removed the memento leaves the cache claiming the call is memoized and serving its value, while listings "
+          "and other processes say it is gone" % (name, name, name, name),
+          fa0.where(cfg.node(bad).ast if bad is not None else None))
+
+
 def _forget_by_scan(ck, R, cm, ff, sw, sep):
     own = [p_ for p_ in ff.fi.params if p_ != "self"]
     slots = set()
@@ -1127,6 +1168,7 @@ def check_forget_scope(ck, cm: CacheModel):
         okc = bool(ccn) and fa.cfg.exit not in fa.cfg.reach([fa.cfg.entry], removed=ccn, edge_ok=branch_filter(fa, _no_cache))
         ck.ob(R, fa.key(None, "cache"), okc, "cache %s whenever a cache exists" % name if okc else
               "%s can finish without self._memory_cache.%s although a cache exists: forgotten entries stay served from memory" % (name, name), fa.where())
+        _check_cache_let_go_first(ck, R, fa, name)
         # arguments forwarded unchanged
         seen_sites = set()
         for (c, args_, kws_) in md + cc:
